@@ -480,6 +480,9 @@ func ResolveExternalLocation(
 	}
 
 	// Parse IPC stream
+	if _, err := checkIPCStreamFraming(fetchedData); err != nil {
+		return batch, meta, fmt.Errorf("parsing external IPC data: %w", err)
+	}
 	reader, err := ipc.NewReader(bytes.NewReader(fetchedData), ipc.WithAllocator(defaultAllocator()))
 	if err != nil {
 		return batch, meta, fmt.Errorf("parsing external IPC data: %w", err)
